@@ -1,7 +1,7 @@
 #!/bin/bash
 # runs every claimed check (quick by default) and prints one line each
 TIER=${1:-quick}
-cd /verif
+cd "$(dirname "$(readlink -f "$0")")/.." || exit 2
 for id in $(python3 -c "import json; print(' '.join(c['property_id'] for c in json.load(open('MANIFEST.json'))['checks']))"); do
   s=$(date +%s); out=$(./check $id --tier $TIER 2>&1); rc=$?; e=$(date +%s)
   echo "$id rc=$rc $((e-s))s :: $(echo "$out" | tail -1)"
